@@ -41,7 +41,9 @@ class Store:
         vs = self.versions.setdefault(resource, [])
         vs.append(make_content(resource, len(vs), size))
 
-    def update(self, resource):
+    def update(self, resource, size=None):
+        if size is not None:
+            self.sizes[resource] = size
         vs = self.versions[resource]
         vs.append(make_content(resource, len(vs), self.sizes[resource]))
 
